@@ -427,11 +427,11 @@ def run(ck):
             if sizeof(cls) != facts[name]:
                 ck.violation(f'structure-size-differs-from-the-kernel-header:{name}', {'python': sizeof(cls), 'kernel': facts[name]}, None)
         rng = ck.rng('c14', ck.shard[0])
-        n = 3000 if not ck.thorough() else 200000
+        n = 3000 if not ck.thorough() else 600000
         for i in range(n):
             if ck.mine(i):
                 forward(ck, rng, orc, cap, i)
-        for i in range(3600 if not ck.thorough() else 30000):
+        for i in range(3600 if not ck.thorough() else 300000):
             if ck.mine(i):
                 reverse(ck, rng, orc, cap, i)
         ck.sample({'sizes_from_kernel_headers': facts})
